@@ -961,17 +961,22 @@ async fn recycle_history(rng: &mut Rng, srv: &resp::Server) -> usize {
     };
     let max = 1 + rng.below(3);
     let len = 4 + rng.below(14);
-    let pool = deadpool_redis::Config::from_url(format!("redis://127.0.0.1:{}", srv.port))
-        .builder()
-        .unwrap()
-        .max_size(max)
-        .runtime(Runtime::Tokio1)
-        .build()
-        .unwrap();
+    // two routes: `Config::builder()` with the pool's recycle timeout ending a reply that never
+    // comes, or a hand-made `Manager::from_config` whose connection configuration carries a
+    // response timeout that has to do that (the pool's recycle timeout is then far away)
+    let via_manager = rng.chance(50);
+    let url = format!("redis://127.0.0.1:{}", srv.port);
+    let pool = if via_manager {
+        let cc = deadpool_redis::redis::AsyncConnectionConfig::new().set_response_timeout(Duration::from_millis(400));
+        let mgr = deadpool_redis::Manager::from_config(url.as_str(), cc).unwrap();
+        deadpool_redis::Pool::builder(mgr).max_size(max).runtime(Runtime::Tokio1).build().unwrap()
+    } else {
+        deadpool_redis::Config::from_url(url).builder().unwrap().max_size(max).runtime(Runtime::Tokio1).build().unwrap()
+    };
     let tmo = deadpool_redis::Timeouts {
         wait: Some(Duration::ZERO),
         create: None,
-        recycle: Some(Duration::from_millis(400)),
+        recycle: Some(if via_manager { Duration::from_secs(8) } else { Duration::from_millis(400) }),
     };
     println!("rp cfg max={max}");
     println!("rpobs cfg ok");
@@ -1038,7 +1043,12 @@ async fn recycle_history(rng: &mut Rng, srv: &resp::Server) -> usize {
                 (st.log.iter().map(|l| l.len()).collect(), 0)
             };
             let _ = pings_before;
+            let t0 = std::time::Instant::now();
             let r = pool.timeout_get(&tmo).await;
+            // (generous: 5 s on top of what the silent replies may legitimately cost; without the
+            // response timeout each of them costs the pool's 8 s)
+            let n_silent = toks.iter().filter(|t| **t == "silent").count() as u64;
+            let slow = via_manager && n_silent > 0 && t0.elapsed() > Duration::from_millis(5000 + 400 * n_silent);
             // what the server saw during this get
             let (pings, order_ok) = {
                 let st = srv.state.lock().unwrap();
@@ -1068,6 +1078,11 @@ async fn recycle_history(rng: &mut Rng, srv: &resp::Server) -> usize {
                 .collect();
             if !order_ok {
                 println!("rpx order BAD: a PING was not directly preceded by UNWATCH on its connection");
+            }
+            if slow {
+                // a reply that never comes is a failed recycle as soon as the connection's own
+                // response timeout (400 ms here) says so
+                println!("rpx a missing reply was not ended by the response timeout of the manager's connection configuration: get() took {} ms", t0.elapsed().as_millis());
             }
             match r {
                 Ok(mut c) => {
